@@ -208,22 +208,38 @@ package sstables
 //@   assumed
 //@   modifies nothing
 
+// swOptsValid(w): what the constructor validates; Open relies on it (the bloom filter library panics on a size of zero).
+//@ spec func swOptsValid(w *SSTableStreamWriter) Bool = w.opts != nil && w.opts.keyComparator != nil && w.opts.bloomExpectedNumberOfElements > 0
+
 //@ func NewSSTableStreamWriter
 //@   assumed
-//@   ensures r1 == nil ==> r0 != nil && r0.opts != nil && r0.opts.keyComparator != nil
+//@   ensures r1 == nil ==> r0 != nil && swOptsValid(r0)
 //@   ensures r1 != nil ==> r0 == nil
 //@   fresh r0
 //@   modifies nothing
 
 //@ func (*SSTableStreamWriter).Open
 //@   assumed
-//@   requires writer.opts != nil && writer.opts.keyComparator != nil
+//@   requires [validated-options] swOptsValid(writer)
 //@   ensures r0 == nil ==> swReady(writer) && isnil(writer.lastKey) && writer.opts == old(writer.opts)
 //@   modifies writer.*
 
 //@ func (*SSTableStreamWriter).Close
 //@   assumed
 //@   modifies writer.*, writer.metaData.*
+
+// C03: a skip list of any length (zero included) is written through the validated options the writer was built with.
+//@ func (*SSTableSimpleWriter).WriteSkipListMap
+//@   props C03 C15
+//@   replay table_model
+//@   requires writer.streamWriter != nil && swOptsValid(writer.streamWriter)
+//@   loop 0
+//@     invariant swReady(writer.streamWriter) && writer.streamWriter == old(writer.streamWriter)
+
+//@ func NewSSTableSimpleWriter
+//@   props C03
+//@   ensures r1 == nil ==> r0 != nil && r0.streamWriter != nil && swOptsValid(r0.streamWriter)
+//@   ensures r1 != nil ==> r0 == nil
 
 // ---------------------------------------------------------------------------------------------------
 // Table reader vocabulary (SSTableReaderI): rpath(r) - base path, rmeta(r) - metadata object; both fixed for the reader's life.
@@ -391,9 +407,10 @@ package sstables
 //@ spec func sliceSorted(l Slice) Bool = forall a, b :: 0 <= a && a < b && b < len(l) ==> bcmp(content(l[a].key), content(l[b].key)) < 0
 
 // search is slices.BinarySearchFunc over bytes.Compare; its postcondition is assumed (library generic with a callback) and
-// exercised by the bounded driver slice_index_model.
+// exercised by the bounded driver table_model.
 //@ func (*SliceKeyIndex).search
 //@   assumed
+//@   bounded table_model written table = read table: 6 key/value sequences (length 0..3; empty key, nil / empty / marker values, a last key that dominates the index) x stream and skip-list writer x slice, skip-list and disk index; Contains/Get/Scan/ScanStartingAt/ScanRange for 12+ probes and all probe pairs, each twice
 //@   requires sliceSorted(s.index)
 //@   ensures [position] 0 <= r0 && r0 <= len(s.index)
 //@   ensures [before-are-smaller] forall i :: 0 <= i && i < r0 ==> bcmp(content(s.index[i].key), content(key)) < 0
@@ -403,7 +420,7 @@ package sstables
 
 //@ func (*SliceKeyIndex).Get
 //@   props C03
-//@   replay slice_index_model
+//@   replay table_model
 //@   requires sliceSorted(s.index)
 //@   ensures [found] forall i :: 0 <= i && i < len(s.index) && bcmp(content(s.index[i].key), content(key)) == 0 ==>
 //@           r1 == nil && r0.Offset == s.index[i].IndexVal.Offset && r0.Checksum == s.index[i].IndexVal.Checksum
@@ -433,7 +450,7 @@ package sstables
 
 //@ func (*SliceKeyIndex).IteratorBetween
 //@   props C03
-//@   replay slice_index_model
+//@   replay table_model
 //@   requires sliceSorted(s.index)
 //@   ensures [inverted-bounds-rejected] bcmp(content(keyLower), content(keyHigher)) > 0 <==> r1 != nil
 //@   exit [inclusive-range] r1 == nil ==> r0 != nil && asType(*SliceKeyIndexIterator, r0).index === s.index &&
